@@ -111,3 +111,25 @@ Theorem C17_undeclared_symbol_rejected :
   forall (rg : raw_grammar) (r : raw_rule) (s : raw_sym), In r (rg_rules rg) -> In s (rr_r r) -> match s with | RTerm id => ~ In id (map rt_id (rg_terms rg) ++ [id_eof; id_error]) | RNterm n => ~ In n (rg_nterms rg ++ [id_fake_root]) end -> analyze rg = None.
 Proof. exact find_str_none_analyze_none. Qed.
 Print Assumptions C17_undeclared_symbol_rejected.
+
+(* ---- namespace stdex / utils below the model (appended by tools/append_props.py) *)
+Require Import Ctpg.Base.Prelude.
+Require Import Ctpg.Model.Grammar.
+Require Import Ctpg.Model.Containers.
+Require Import Ctpg.Model.Utils.
+Require Import Ctpg.Proofs.ContainersBits.
+Require Import Ctpg.Proofs.ContainersVec.
+Require Import Ctpg.Proofs.ContainersSort.
+Require Import Ctpg.Proofs.UtilsCorrect.
+
+(* utils::is_printable on signed chars: exactly 0x20..0x7e - bytes >= 0x80 are negative chars and are refused as raw pattern bytes *)
+Theorem C17_printable_class :
+  forall b : nat, b < 256 -> is_printable b = (32 <=? b) && (b <=? 126).
+Proof. exact @is_printable_spec. Qed.
+Print Assumptions C17_printable_class.
+
+(* bytes 128..255 are neither printable nor digits *)
+Theorem C17_high_bytes_belong_to_no_class :
+  forall b : nat, 128 <= b -> b < 256 -> is_printable b = false /\ is_dec_digit b = false /\ is_hex_digit b = false.
+Proof. exact @high_bytes_no_class. Qed.
+Print Assumptions C17_high_bytes_belong_to_no_class.
